@@ -510,6 +510,37 @@ Ltac blocks_P := idtac;
   | |- presG _ _ (cancel_slot _) => apply presG_weaken; apply cancel_slot_P; discriminate
   end.
 
+(* the client's onConnect raises: OPEN and first ping armed as in handshake_ok, then the connection is failed *)
+Lemma fail_connection_P : forall code txt, presL I_P (fail_connection c code txt).
+Proof. intros code txt. unfold fail_connection. pres_go leaf_P blocks_P. Qed.
+
+Lemma client_connect_raises_P : forall txt, presG (fun s => connecting s = true) I_P (client_connect_raises c txt).
+Proof.
+  intros txt log s HG [(P1 & P2 & P3 & P4 & P5) Hpp]. unfold I_P.
+  unfold connecting in HG. apply andb_prop in HG. destruct HG as [HG _]. apply andb_prop in HG. destruct HG as [_ HG].
+  apply (in_state_true CONNECTING s) in HG. destruct (P5 HG) as (Z1 & Z2 & Z3 & Z4 & Z5).
+  unfold client_connect_raises. rewrite !fst_seq. unfold upd. cbn [fst].
+  set (s1 := set_st OPEN s).
+  destruct (cancel_other_eff TOpenHS s1) as (C1 & C2 & Cc); [discriminate|discriminate|].
+  set (s2 := fst (cancel_slot TOpenHS s1)) in *.
+  assert (Q1 : nA s2 = 0%nat) by (rewrite C1; exact Z1).
+  assert (Q2 : nT s2 = 0%nat) by (rewrite C2; exact Z2).
+  assert (Q3 : pingPending s2 = None) by (rewrite (core_pp _ _ Cc); exact Z3).
+  assert (Q4 : st s2 <> CONNECTING) by (rewrite (core_st _ _ Cc); simpl; discriminate).
+  destruct (rearm_tail s2 Q1 Q2 Q3 Q4) as (R1 & R2 & _).
+  exact (fail_connection_P code_onconnect_failed txt [] _ (conj R1 R2)).
+Qed.
+
+Ltac blocks_P2 := idtac;
+  first [ blocks_P |
+  match goal with
+  | |- presG _ _ (client_connect_raises _ _) =>
+      eapply presG_imp; [|apply client_connect_raises_P]; cbv beta; intros; guard_facts;
+      unfold connecting; repeat (apply andb_true_intro; split); auto;
+      try (apply negb_true_iff; assumption);
+      match goal with H : st ?x = CONNECTING |- wstate_eqb (st ?x) CONNECTING = true => rewrite H; reflexivity end
+  end ].
+
 Lemma on_timer_P : forall k, k <> A -> k <> T -> presL I_P (on_timer c k).
 Proof.
   intros k HA HT. destruct k; try (exfalso; apply HA; reflexivity); try (exfalso; apply HT; reflexivity);
@@ -656,7 +687,7 @@ Qed.
 
 Lemma step_P : forall e, presL I_P (handle c e).
 Proof.
-  intros e. destruct e; unfold handle; try apply tick_P; pres_go leaf_P blocks_P.
+  intros e. destruct e; unfold handle; try apply tick_P; pres_go leaf_P blocks_P2.
 Qed.
 End Ping.
 
